@@ -96,11 +96,35 @@ func (u *Unit) intrinsic(fr *Frame, st *State, fn *ssa.Function, args []Val, whe
 	case "(*sync/atomic.Bool).Store", "(*sync/atomic.Uint64).Store", "(*sync/atomic.Int32).Store", "(*sync/atomic.Value).Store":
 		u.atomicStore(fr, st, args[0], args[1], where)
 		return nil
-	case "(*sync/atomic.Int32).Add":
+	case "(*sync/atomic.Int32).Add", "(*sync/atomic.Int64).Add", "(*sync/atomic.Uint32).Add", "(*sync/atomic.Uint64).Add":
 		cur := u.atomicLoad(fr, st, args[0], sig.Results().At(0).Type(), where)
 		nv := &Scalar{T: u.define(Arith("+", u.termOf(cur), u.termOf(args[1])), "added"), Typ: sig.Results().At(0).Type()}
 		u.atomicStore(fr, st, args[0], nv, where)
 		return nv
+	case "(*sync/atomic.Int64).Load", "(*sync/atomic.Uint32).Load":
+		return u.atomicLoad(fr, st, args[0], sig.Results().At(0).Type(), where)
+	case "(*sync/atomic.Int64).Store", "(*sync/atomic.Uint32).Store":
+		u.atomicStore(fr, st, args[0], args[1], where)
+		return nil
+	case "(*sync/atomic.Bool).Swap", "(*sync/atomic.Int32).Swap", "(*sync/atomic.Int64).Swap", "(*sync/atomic.Uint32).Swap", "(*sync/atomic.Uint64).Swap":
+		// one indivisible step: the previous value is returned, the new one stored
+		cur := u.atomicLoad(fr, st, args[0], sig.Results().At(0).Type(), where)
+		u.atomicStore(fr, st, args[0], args[1], where)
+		return cur
+	case "(*sync/atomic.Bool).CompareAndSwap", "(*sync/atomic.Int32).CompareAndSwap", "(*sync/atomic.Int64).CompareAndSwap", "(*sync/atomic.Uint32).CompareAndSwap", "(*sync/atomic.Uint64).CompareAndSwap":
+		// one indivisible step: swapped iff the current value equals old; the stored value is new then, unchanged otherwise
+		et := sig.Params().At(0).Type()
+		cur := u.atomicLoad(fr, st, args[0], et, where)
+		var swapped Term
+		if u.termOf(cur).Sort == SBool {
+			swapped = Eq(u.boolOf(cur), u.boolOf(args[1]))
+		} else {
+			swapped = Eq(u.termOf(cur), u.termOf(args[2-1]))
+		}
+		swapped = u.define(swapped, "cas")
+		nv := u.mergeVals(swapped, args[2], cur)
+		u.atomicStore(fr, st, args[0], nv, where)
+		return &Scalar{T: swapped, Typ: types.Typ[types.Bool]}
 
 	case "context.Background":
 		return &Scalar{T: u.sentinel("context.Background"), Typ: sig.Results().At(0).Type(), Origin: "ctx:background"}
